@@ -405,6 +405,10 @@ def run(ck):
             meta.append((sg, cr, D, first[0]))
     nreuse = reuse_stream(ck, pick, allstrata, getParser)
     ck.coverage["evaluations"] += nreuse
+    # which symmetry the file is read with: theorems, source tie, stream
+    oks, infos = ck.lean_obligations("DS.Props.C07Sym")
+    tiesym_ok, tiesym_info = ck.source_tie("DS.Props.SrcCifSym", groups=("cifsym",))
+    ck.coverage["evaluations"] += symsrc_stream(ck, sgl, allstrata, getParser) * (1 if (oks and tiesym_ok) else 1)
     # row phase: model vs reader before the expansion; wider when the source tie or the proofs are broken
     row_words_stream(ck)
     row_stream(ck, (500 if ck.tier == "quick" else 6000) * (1 if (tier_ok and okr) else 4))
@@ -454,6 +458,10 @@ def run(ck):
     ck.tie_verdict(tie_ok, tie_info, "p_cif.py leading_float")
     ck.tie_verdict(tier_ok, tier_info, "p_cif.py atom-site setters, name table, site loop and aniso loop")
     ck.tie_verdict(ties_ok, ties_info, "p_cif.py getSymOp, _symop_constant, symvec and the two regular expressions")
+    ck.tie_verdict(tiesym_ok, tiesym_info, "p_cif.py _parse_space_group_symop_operation_xyz (which symmetry the file is read with), _expandAsymmetricUnit, _parseCifBlock")
+    if not oks and not ck.violations:
+        ck.fail("lean-build", "Lean obligations of C07 (symmetry source) no longer check: %r" % infos["failed_modules"],
+                {"kind": "proof-obligation", "theorem": infos["failed_modules"], "errors": infos["errors"]}, no_failing_input=True)
     ck.assumptions += ["row phase: strings are ASCII (str.upper/lower/strip, \\d, [a-zA-Z] of the model); the number of a loop value is read by the harness with the CIF number grammar (the reader's own number reader is the cifnum stream)",
                        "row phase: the lattice attributes the Cartesian setters and the isotropic tensor use are read from a Lattice object built from the printed cell (lattice construction is C10's subject)",
                        "row phase: column-order independence holds only under DS.CifRow.RowShape; the four one-loop layouts outside it are the findings roworder:*"]
@@ -465,6 +473,236 @@ def run(ck):
         ck.fail("lean-build", "Lean obligations of C07 no longer check: %r" % info["failed_modules"],
                 {"kind": "proof-obligation", "theorem": info["failed_modules"], "errors": info["errors"]}, no_failing_input=True)
 
+
+
+# ---------------------------------------------------------------------------------------------------------------
+# which symmetry the file is read with (DS.Model.CifSym / DS.Props.C07Sym / DS.Props.SrcCifSym)
+
+def shifted_setting(sg, off):
+    """the same space group referred to an origin shifted by `off` (exact fractions, multiples of 1/24):
+    operations (R, t + off - R off) - an operator list that is in general NOT tabulated"""
+    from diffpy.structure.spacegroupmod import SpaceGroup, SymOp
+
+    ops = []
+    for o in sg.symop_list:
+        R, t = sc.exact_op(o)
+        Ro = sc.matvec(R, off)
+        t2 = [(t[i] + off[i] - Ro[i]) % 1 for i in range(3)]
+        ops.append(SymOp(numpy.array([[float(v) for v in r] for r in R]), numpy.array([float(v) for v in t2])))
+    return SpaceGroup(number=sg.number, num_sym_equiv=sg.num_sym_equiv, num_primitive_sym_equiv=sg.num_primitive_sym_equiv,
+                      short_name=sg.short_name, point_group_name=sg.point_group_name, crystal_system=sg.crystal_system,
+                      pdb_name=sg.pdb_name, symop_list=ops)
+
+
+def symsrc_model_line(text_items, op_texts, both=None):
+    """driver line `cifsym.resolve` for a block with the given scalar items and operator column(s); the library functions
+    are tabulated with the real FindSpaceGroup / IsSpaceGroupIdentifier / GetSpaceGroup / getSymOp of the tree under examination"""
+    from diffpy.structure.parsers.p_cif import getSymOp
+    from diffpy.structure.spacegroups import FindSpaceGroup, GetSpaceGroup, IsSpaceGroupIdentifier
+    from diffpy.structure.structureerrors import StructureFormatError
+
+    def esc(t):
+        return t.replace(" ", "%20") if t else "~"
+
+    cols = dict(op_texts)
+    names = list(cols) + [k for k, _ in text_items]
+    bad, finds = [], []
+    for cname, texts in cols.items():
+        ops = []
+        okall = True
+        for t in texts:
+            try:
+                ops.append(getSymOp(t))
+            except StructureFormatError:
+                bad.append(t)
+                okall = False
+        if okall and ops:
+            try:
+                g = FindSpaceGroup(ops)
+                finds.append(("|".join(esc(t) for t in texts), str(g.number)))
+            except ValueError:
+                pass
+    ids = []
+    for k, v in text_items:
+        if v and IsSpaceGroupIdentifier(v):
+            ids.append((v, str(GetSpaceGroup(v).number)))
+    f = lambda l: ";".join(l) if l else "~"
+    return "cifsym.resolve %s %s %s %s %s %s" % (
+        f([esc(n) for n in names]), f(["%s=%s" % (esc(k), esc(v)) for k, v in text_items]),
+        f(["%s=%s" % (esc(k), "|".join(esc(t) for t in v)) for k, v in cols.items()]), f([esc(b) for b in bad]),
+        f(["%s:%s" % kv for kv in finds]), f(["%s=%s" % (esc(k), v) for k, v in ids]))
+
+
+def symsrc_observed(p):
+    """what the parser object says after a parse, in the vocabulary of the driver"""
+    g = p.spacegroup
+    nm = (p.cif_sgname or "").replace(" ", "%20") or "~"
+    if g is None:
+        return "none"
+    if (g.short_name or "").startswith("CIF "):
+        from .c11 import xyz_text
+        return "custom %s %s" % (g.short_name.replace(" ", "%20"), (g.crystal_system or "").replace(" ", "%20"))
+    return "tab %s %s" % (g.number, nm)
+
+
+def symsrc_render(ck, shifted, cr, items, opname="_symmetry_equiv_pos_as_xyz", ops=True):
+    """CIF text: cell, scalar symmetry items, optionally the operator loop of `shifted`, the atom loops"""
+    base = {"sym": "none", "esd": False, "B": False, "cartn": False, "adptype": True, "shufcols": False, "shufloops": False}
+    text = render(ck, shifted, cr, base)
+    from .c11 import xyz_text
+    sym = ["%-36s '%s'" % (k, v) for k, v in items]
+    op_texts = [xyz_text(o, 0) for o in shifted.symop_list]
+    if ops:
+        sym += ["loop_", opname] + ["'%s'" % t for t in op_texts]
+    marker = "\nloop_\n_atom_site_label"
+    i = text.index(marker)
+    return text[:i] + "\n" + "\n".join(sym) + "\n" + text[i:], op_texts
+
+
+def symsrc_stream(ck, sgl, allstrata, getParser):
+    """(1) a crystal referred to a shifted origin: its operator list is not tabulated.  Alone, or with a Hall symbol, it must be
+    expanded with exactly the listed operators (ad-hoc group); together with the H-M symbol or the IT number of the group
+    (which do not fix the origin) the same must hold - the present reader expands with the tabulated operators instead
+    (finding symsource:listed-ops-overridden).  (2) one parser object reading a second file whose symmetry is given by symbol,
+    number or an untabulated operator list, after a file of another group.  (3) no usable symmetry information: format error.
+    Every parse is also compared with the decision model `DS.CifSym.resolve` through the driver."""
+    from diffpy.structure.spacegroups import FindSpaceGroup, GetSpaceGroup
+    from diffpy.structure.structureerrors import StructureFormatError
+
+    n = 0
+    lines, obs, what = [], [], []
+    cands = [g for g in sgl if allstrata.get(g.number) and len(g.symop_list) <= 48 and 0 < g.number <= 230]
+    ck.rng.shuffle(cands)
+    ncase = 8 if ck.tier == "quick" else 60
+    first_sg = GetSpaceGroup(225)
+    first_cr = make_crystal(ck, first_sg, allstrata[225])
+    first_text = render(ck, first_sg, first_cr, {"sym": "ops", "esd": False, "B": False, "cartn": False, "adptype": True, "shufcols": False, "shufloops": False})
+    done = 0
+    for sg in cands:
+        if done >= ncase:
+            break
+        off = None
+        for _ in range(6):
+            o = [Fraction(ck.rng.choice([0, 1, 2, 3, 5, 7]), ck.rng.choice([8, 12, 24])) for _ in range(3)]
+            sh = shifted_setting(sg, o)
+            try:
+                FindSpaceGroup(sh.symop_list)
+            except ValueError:
+                off = o
+                break
+        if off is None:
+            continue   # every tried shift is again a tabulated setting (e.g. P1)
+        done += 1
+        cr0 = make_crystal(ck, sg, allstrata[sg.number])
+        cr = {"cell": cr0["cell"], "sites": [dict(s_, x=[(s_["x"][i] + off[i]) % 1 for i in range(3)]) for s_ in cr0["sites"]]}
+        exp = expected(sh, cr, True)
+        hall = "-X %d test" % sg.number
+        unique_hm = False
+        try:
+            unique_hm = GetSpaceGroup(sg.short_name) is sg
+        except ValueError:
+            pass
+        variants = [("ops-only", [], True), ("ops+hall", [("_symmetry_space_group_name_Hall", hall), ("_symmetry_cell_setting", sg.crystal_system.lower())], True),
+                    ("ops+number", [("_symmetry_Int_Tables_number", str(sg.number))], True)]
+        if unique_hm:
+            variants.append(("ops+hm", [("_symmetry_space_group_name_H-M", sg.short_name)], True))
+        for vname, items, withops in variants:
+            n += 1
+            opname = ck.rng.choice(["_symmetry_equiv_pos_as_xyz", "_space_group_symop_operation_xyz"])
+            text, op_texts = symsrc_render(ck, sh, cr, items, opname)
+            repl = {"kind": "symsrc", "variant": vname, "setting": sg.number, "origin_shift": [str(v) for v in off], "cif": text,
+                    "expected": [{"label": e["label"], "xyz": [str(v) for v in e["xyz"]]} for e in exp]}
+            p = getParser("cif")
+            try:
+                stru = p.parse(text)
+            except Exception as e:  # noqa: BLE001
+                ck.fail("symsource:rejected:%s" % vname, "CIF of %s #%s referred to the origin %s (%s) is rejected: %r" % (sg.short_name, sg.number, [str(v) for v in off], vname, e), repl)
+                continue
+            lines.append(symsrc_model_line(items, {opname: op_texts}))
+            obs.append(symsrc_observed(p))
+            what.append(repl)
+            prob = compare(stru, exp)
+            if prob:
+                key = "symsource:listed-ops-overridden" if vname in ("ops+number", "ops+hm") and not (p.spacegroup.short_name or "").startswith("CIF ") else "symsource:%s" % vname
+                ck.fail(key, "a CIF that lists its symmetry operators (%s #%s referred to the origin %s, an untabulated setting) together with %s is not expanded with the listed operators "
+                        "but with those of the tabulated setting %r: %s" % (sg.short_name, sg.number, [str(v) for v in off], vname, p.spacegroup.short_name, prob), dict(repl, detail=prob))
+            elif vname in ("ops-only", "ops+hall"):
+                got = sorted(str(o) for o in p.spacegroup.symop_list)
+                want = sorted(str(o) for o in sh.symop_list)
+                if got != want:
+                    ck.fail("symsource:%s:group" % vname, "parser.spacegroup of a CIF with an untabulated operator list does not consist of the listed operators", repl)
+        # (2) reuse of a parser object after a file of another group
+        for vname, items, withops in (("reuse:number", [("_symmetry_Int_Tables_number", str(sg.number))], False),
+                                      ("reuse:hm", [("_symmetry_space_group_name_H-M", sg.short_name)], False),
+                                      ("reuse:ops-only", [], True)):
+            if not withops:
+                try:
+                    if GetSpaceGroup(items[0][1]) is not sg:
+                        continue
+                except ValueError:
+                    continue
+                text, op_texts = symsrc_render(ck, sg, cr0, items, ops=False)
+            else:
+                text, op_texts = symsrc_render(ck, sh, cr, items)
+            n += 1
+            shared = getParser("cif")
+            try:
+                shared.parse(first_text)
+                s_shared = shared.parse(text)
+                s_fresh = getParser("cif").parse(text)
+            except Exception as e:  # noqa: BLE001
+                ck.fail("symsource:%s" % vname, "parse raised %r on a rendered CIF of #%s" % (e, sg.number), {"kind": "symsrc-reuse", "variant": vname, "first": first_text, "cif": text})
+                continue
+            d = same_structure(s_fresh, s_shared)
+            if not d and symsrc_observed(shared) != symsrc_observed(getParser("cif")) and False:
+                d = None
+            if d:
+                ck.fail("symsource:%s" % vname, "a P_cif object that has read a file of Fm-3m before reads %s #%s (%s) differently from a fresh parser: %s" % (
+                    sg.short_name, sg.number, vname, d), {"kind": "symsrc-reuse", "variant": vname, "setting": sg.number, "first": first_text, "cif": text, "detail": d})
+    # (3) no usable symmetry information
+    sg = GetSpaceGroup(62)
+    cr0 = make_crystal(ck, sg, allstrata[62])
+    for vname, items in (("none", []), ("unknown-hm", [("_symmetry_space_group_name_H-M", "P x y z")]), ("hall-only", [("_symmetry_space_group_name_Hall", "-P 2ac 2n")])):
+        n += 1
+        text, _ = symsrc_render(ck, sg, cr0, items, ops=False)
+        p = getParser("cif")
+        try:
+            p.parse(text)
+            out = symsrc_observed(p)
+        except StructureFormatError:
+            out = "SFE"
+        except Exception as e:  # noqa: BLE001
+            out = type(e).__name__
+        lines.append(symsrc_model_line(items, {}))
+        obs.append(out)
+        what.append({"kind": "symsrc", "variant": vname, "cif": text})
+        if out != "SFE":
+            ck.fail("symsource:nosym:%s" % vname, "a CIF without usable symmetry information (%s) is not rejected with the format error: %s" % (vname, out),
+                    {"kind": "symsrc", "variant": vname, "cif": text, "expected_kind": "SFE"})
+    # model comparison
+    try:
+        outs = common.driver(lines)
+    except common.DriverBroken as e:
+        outs = None
+        ck.notes.append("driver unavailable (cifsym): %s" % str(e)[:300])
+    nm = 0
+    if outs is not None:
+        for ln, o, ob, w in zip(lines, outs, obs, what):
+            nm += 1
+            mo = o.split()
+            # the model prints the operator texts of an ad-hoc group; the observation does not
+            if mo and mo[0] == "custom":
+                o2 = " ".join(mo[:3])
+            elif mo and mo[0] == "tab":
+                o2 = " ".join(mo[:3])
+            else:
+                o2 = o
+            if o2 != ob:
+                ck.fail("model-cifsym:%s" % w.get("variant"), "Lean model DS.CifSym.resolve and P_cif disagree on the symmetry used (%s): model %r, implementation %r" % (w.get("variant"), o2, ob),
+                        {"kind": "correspondence", "driver_line": ln[:3000], "model": o, "observed": ob, "cif": w.get("cif"), "theorem": "correspondence stream cifsym.resolve"}, no_failing_input=True)
+    ck.coverage["traces_validated_against_impl"] += nm
+    ck.coverage["symsource"] = {"parses": n, "model_comparisons": nm, "settings": done}
+    return n
 
 def reuse_stream(ck, pick, allstrata, getParser):
     """One parser object used for several files in a row (parseFile): every result must equal that of a fresh parser."""
@@ -513,6 +751,42 @@ def replay(path):
     r = json.load(open(path))
     from diffpy.structure.parsers import getParser
 
+    if r.get("kind") == "symsrc":
+        from diffpy.structure.structureerrors import StructureFormatError
+
+        try:
+            stru = getParser("cif").parse(r["cif"])
+        except StructureFormatError as e:
+            print("StructureFormatError:", e)
+            return 0 if r.get("expected_kind") == "SFE" else 1
+        except Exception as e:  # noqa: BLE001
+            print("raised %r" % (e,))
+            return 1
+        if r.get("expected_kind") == "SFE":
+            print("accepted (%d atoms), expected the format error" % len(stru))
+            return 1
+        exp = r.get("expected") or []
+        if len(stru) != len(exp):
+            print("%d atoms, the union of the orbits under the listed operators has %d" % (len(stru), len(exp)))
+            return 1
+        for i, (a, e) in enumerate(zip(stru, exp)):
+            if sc.pdist(a.xyz, [Fraction(v) for v in e["xyz"]]) > 2e-7 or a.label != e["label"]:
+                print("atom %d %s at %r, expected %s at %r" % (i, a.label, a.xyz.tolist(), e["label"], [float(Fraction(v)) for v in e["xyz"]]))
+                return 1
+        print("expanded with the listed operators")
+        return 0
+    if r.get("kind") == "symsrc-reuse":
+        shared = getParser("cif")
+        try:
+            shared.parse(r["first"])
+            s_shared = shared.parse(r["cif"])
+            s_fresh = getParser("cif").parse(r["cif"])
+        except Exception as e:  # noqa: BLE001
+            print("raised %r" % (e,))
+            return 1
+        d = same_structure(s_fresh, s_shared)
+        print("reused parser against fresh parser:", d)
+        return 1 if d else 0
     if r.get("kind") in ("row", "roworder"):
         kind, real = row_real(r["cif"])
         print("first text:", kind, real if kind != "ok" else "%d atoms" % len(real))
